@@ -288,3 +288,18 @@ theorem constructor_validation_is_the_source_text (r m : Rat) (ri ro : Nat) :
    CtorTie.constructors_validate_first, CtorTie.constructors_validate_first_all⟩
 
 end Rubato.C03
+
+namespace Rubato.C03
+open Rubato
+
+/-- finding D20 on the model (kernel-evaluated witness): `SincFixedOut` built around a user interpolator of length 1 (ratio 13,
+chunk 12, Linear, 3 sub-filters: one input frame per call, a buffer of 4) is accepted by the constructor and its FIRST valid
+call panics in `get_sinc_interpolated`; the same configuration with length 2 runs four calls without failure.  (The
+fixed-output safety theorems above carry `8 ≤ len`, `2 ∣ len`: this is the excluded corner, run.) -/
+theorem sincOut_user_interpolator_len1_false :
+    AState.init .sincOut (13 : ℚ) 1 .cubic SincInterp.linear (probeInterp (ρ := ℚ) 1 3) 12 1 = .ok OddLength.d20S0 ∧
+    OddLength.isPanic (OddLength.outcomeOf 0 OddLength.d20S0) = true ∧
+    (OddLength.okSummary (OddLength.outcomeOf 3 OddLength.d20C0)).isSome = true :=
+  ⟨OddLength.d20_init, OddLength.d20_panics, OddLength.d20_control_ok.2.2.2⟩
+
+end Rubato.C03
